@@ -94,7 +94,7 @@ type Interp struct {
 	extra     map[string]interface{}
 	syncHook  func(op string, mu value)
 	panics    []*panicState
-	fullRange bool
+	maxLZ     int // leading zero bytes allowed in generated keys / signatures
 	errStack  []string
 	errWhere  string
 }
